@@ -60,6 +60,18 @@ type Case struct {
 	// pex
 	Steps []Step `json:"steps"`
 	Mult  int    `json:"mult"` // each abstract address stands for this many peers (same host, consecutive ports); 0 = 1
+	// blockname
+	C struct {
+		Cpp   int `json:"cpp"`
+		Block int `json:"block"`
+	} `json:"c"`
+	Exp struct {
+		Index       int64 `json:"index"`
+		BeginBlocks int64 `json:"beginBlocks"`
+		Length      int64 `json:"length"`
+	} `json:"exp"`
+	NBlocks int64 `json:"nblocks"`
+	Tail    int64 `json:"tail"`
 }
 
 type Viol struct {
@@ -415,6 +427,87 @@ func labels(steps []Step) []string {
 	return r
 }
 
+// runBlockName: spec/BlockName.tla.  The torrent asks an unchoked peer that has
+// every piece for one block, by its number; the Request (and, when the torrent
+// changes its mind, the Cancel) read off the peer's writer must name that block.
+func runBlockName(c *Case, out *Out) {
+	ps := &piece.Pieces{}
+	total := c.NBlocks*16384 + c.Tail
+	expBegin := c.Exp.BeginBlocks * 16384
+	ps.MetadataComplete(uint32(c.C.Cpp)*16384, total)
+	n := ps.Num()
+	wr := make(chan protocol.Message, 64)
+	id := make([]byte, 20)
+	id[0] = 9
+	p := peer.VerifNew(ps, []byte("info"), bitmap.New(n), netip.MustParseAddrPort("192.0.2.9:6881"),
+		protocol.HandshakeResult{Hash: hash.Hash(make([]byte, 20)), Id: hash.Hash(id), Fast: true}, make(chan peer.TorEvent, 4096), wr)
+	desc := fmt.Sprintf("pieces of %d blocks, torrent of %d bytes, block %d", c.C.Cpp, total, c.C.Block)
+	viol := func(key, what string) {
+		out.Violations = append(out.Violations, Viol{"C11", key, what + " (" + desc + ")"})
+	}
+	step := func(what string, f func() error) bool {
+		var err error
+		func() {
+			defer func() {
+				if r := recover(); r != nil {
+					err = fmt.Errorf("panic: %v", r)
+					viol("blockname-panic", what+" panicked: "+fmt.Sprint(r))
+				}
+			}()
+			err = f()
+		}()
+		if err != nil && len(out.Violations) == 0 {
+			out.Note = what + ": " + err.Error()
+		}
+		return err == nil
+	}
+	if !step("HaveAll", func() error { return peer.VerifHandleMessage(p, protocol.HaveAll{}) }) ||
+		!step("Unchoke", func() error { return peer.VerifHandleMessage(p, protocol.Unchoke{}) }) ||
+		!step("PeerRequest", func() error { return peer.VerifHandleEvent(p, peer.PeerRequest{Chunks: []uint32{uint32(c.C.Block)}}) }) {
+		return
+	}
+	var req *protocol.Request
+	drain := func() (cancels []protocol.Cancel) {
+		for {
+			select {
+			case m := <-wr:
+				switch x := m.(type) {
+				case protocol.Request:
+					if req != nil {
+						viol("request-duplicate", fmt.Sprintf("a second Request{%d,%d,%d} for one block", x.Index, x.Begin, x.Length))
+					}
+					r := x
+					req = &r
+				case protocol.Cancel:
+					cancels = append(cancels, x)
+				}
+			default:
+				return
+			}
+		}
+	}
+	drain()
+	if req == nil {
+		out.Nonconf = append(out.Nonconf, "no Request was written ("+desc+")")
+		return
+	}
+	if int64(req.Index) != c.Exp.Index || int64(req.Begin) != expBegin {
+		viol("request-names-another-block", fmt.Sprintf("asked for block %d, the peer wrote Request{%d,%d,%d}; the block is piece %d offset %d",
+			c.C.Block, req.Index, req.Begin, req.Length, c.Exp.Index, expBegin))
+	} else if int64(req.Length) != c.Exp.Length {
+		viol("request-length", fmt.Sprintf("Request{%d,%d,%d}: the block has %d bytes", req.Index, req.Begin, req.Length, c.Exp.Length))
+	}
+	// the torrent withdraws the request: the Cancel names the same block
+	if !step("PeerCancel", func() error { return peer.VerifHandleEvent(p, peer.PeerCancel{Chunk: uint32(c.C.Block)}) }) {
+		return
+	}
+	for _, x := range drain() {
+		if x.Index != req.Index || x.Begin != req.Begin || x.Length != req.Length {
+			viol("cancel-not-outstanding", fmt.Sprintf("Cancel{%d,%d,%d} after Request{%d,%d,%d}", x.Index, x.Begin, x.Length, req.Index, req.Begin, req.Length))
+		}
+	}
+}
+
 // Handle is the worker-side entry point.
 func Handle(in []byte) any {
 	var c Case
@@ -427,6 +520,8 @@ func Handle(in []byte) any {
 		runAdvert(&c, out)
 	case "pex":
 		runPex(&c, out)
+	case "blockname":
+		runBlockName(&c, out)
 	default:
 		out.Note = "unknown kind"
 	}
